@@ -4,7 +4,7 @@
 From Coq Require Import NArith ZArith List Bool String.
 From V Require Import Base.UString Model.PatternEq Spec.PatternSemantics
      Proofs.PatternEqCmp Proofs.PatternEqLists Proofs.PatternEqC Proofs.PatternEqDnf Proofs.PatternEqNorm
-     Proofs.PatternEqTop Proofs.PatternEqO Proofs.PatternEqWitness Proofs.PatternEqSort Proofs.PatternEqRecog Proofs.PatternEqErr.
+     Proofs.PatternEqTop Proofs.PatternEqO Proofs.PatternEqWitness Proofs.PatternEqSort Proofs.PatternEqRecog Proofs.PatternEqErr Proofs.PatternEqIp4.
 Import ListNotations.
 
 (* ---- the comparators are lawful (reflexive, antisymmetric, transitive as a total preorder) ---- *)
@@ -100,19 +100,39 @@ Theorem settle_establishes_flat : forall fuel e e' ch, csettle fuel e = Ok (e', 
 Proof. exact flat_csettle. Qed.
 Print Assumptions settle_establishes_flat.
 
-(* special values: registry-key strings up to case (not the regular expression of MATCHES), hex text
-   up to the case of its digits; address strings under respects_cidr (see Spec) *)
-Theorem special_sound : forall obj otype H, respects_cidr obj H ->
+(* special values: registry-key strings up to case, hex text up to the case of its digits, IPv4
+   address / CIDR strings as the network they denote (ipv4_canon_preserves_network below), never the
+   regular expression of MATCHES; IPv6 strings under the hypothesis respects_cidr6 (see Spec) *)
+Theorem special_sound : forall obj otype H, respects_cidr6 obj H ->
     forall v a a' x, safe_atom v a = true -> special_atom v a = Ok a' -> asem obj otype H a' x = asem obj otype H a x.
 Proof. exact special_atom_sound. Qed.
 Print Assumptions special_sound.
+
+(* the canonical text of an IPv4 address / CIDR string (inet_aton, _mask_bytes, inet_ntoa, str(prefix))
+   denotes the same network as the original text: same 32-bit address after clearing the host bits
+   arithmetically, same prefix length *)
+Theorem ipv4_canon_preserves_network : forall s s', ip_canon false s = CanonTo s' -> ipv4_net_of s' = ipv4_net_of s.
+Proof. exact ip4_canon_preserves_net. Qed.
+Print Assumptions ipv4_canon_preserves_network.
+
+Theorem ipv4_roundtrip : forall b0 b1 b2 b3,
+    (b0 < 256)%N -> (b1 < 256)%N -> (b2 < 256)%N -> (b3 < 256)%N ->
+    inet_aton (inet_ntoa [b0; b1; b2; b3]) = AtonOk [b0; b1; b2; b3].
+Proof. exact aton_ntoa. Qed.
+Print Assumptions ipv4_roundtrip.
+
+Theorem ipv4_mask_is_arithmetic : forall n b0 b1 b2 b3,
+    (0 <= n < 32)%Z -> (b0 < 256)%N -> (b1 < 256)%N -> (b2 < 256)%N -> (b3 < 256)%N ->
+    addr4 (mask_bytes [b0; b1; b2; b3] n) = (addr4 [b0; b1; b2; b3] / 2 ^ Z.to_N (32 - n) * 2 ^ Z.to_N (32 - n))%N.
+Proof. exact mask_addr. Qed.
+Print Assumptions ipv4_mask_is_arithmetic.
 
 Theorem repaired_variant_is_safe : forall p, safe_o repaired p = true.
 Proof. exact safe_o_repaired. Qed.
 Print Assumptions repaired_variant_is_safe.
 
 (* the whole comparison-level normaliser *)
-Theorem comparison_normalize_sound : forall obj otype H, respects_denotation obj H -> respects_cidr obj H ->
+Theorem comparison_normalize_sound : forall obj otype H, respects_denotation obj H -> respects_cidr6 obj H ->
     forall v fuel e0 e ch, safe_c v e0 = true -> cnormalize v fuel e0 = Ok (e, ch) ->
                            forall x, csem obj otype H e x = csem0 obj otype H e0 x.
 Proof. exact cnormalize_sound. Qed.
@@ -156,21 +176,21 @@ Theorem dnf_sound_obs : forall obj otype H O f e e' ch,
 Proof. intros obj otype H O f e e' ch E. exact (odnf_sound obj otype H O f e e' ch E). Qed.
 Print Assumptions dnf_sound_obs.
 
-Theorem normalize_sound : forall obj otype H, respects_denotation obj H -> respects_cidr obj H ->
+Theorem normalize_sound : forall obj otype H, respects_denotation obj H -> respects_cidr6 obj H ->
     forall O v fuel p n, safe_o v p = true -> onormalize v fuel p = Ok n ->
                          oequiv obj otype H O n (unparen_o p).
 Proof. exact onormalize_sound. Qed.
 Print Assumptions normalize_sound.
 
 (* THE soundness theorem: patterns reported equivalent match exactly the same observation sequences *)
-Theorem equiv_sound : forall obj otype H, respects_denotation obj H -> respects_cidr obj H ->
+Theorem equiv_sound : forall obj otype H, respects_denotation obj H -> respects_cidr6 obj H ->
     forall O v fuel p q, safe_o v p = true -> safe_o v q = true -> equiv v fuel p q = Ok true ->
                          (matches0 obj otype H O p <-> matches0 obj otype H O q).
 Proof. exact PatternEqO.equiv_sound. Qed.
 Print Assumptions equiv_sound.
 
 (* for the repaired special-value pass there is no side condition on the patterns *)
-Theorem equiv_sound_repaired : forall obj otype H, respects_denotation obj H -> respects_cidr obj H ->
+Theorem equiv_sound_repaired : forall obj otype H, respects_denotation obj H -> respects_cidr6 obj H ->
     forall O fuel p q, equiv repaired fuel p q = Ok true -> (matches0 obj otype H O p <-> matches0 obj otype H O q).
 Proof.
   intros obj otype H Hd Hc O fuel p q E.
@@ -294,7 +314,7 @@ Print Assumptions equiv_never_raises_partial.
    base64 text lower-cased on a registry-key path, regular expression lower-cased *)
 Theorem equiv_sound_pinned_refuted_binary :
   exists p q obj otype H O,
-    respects_denotation obj H /\ respects_cidr obj H /\ equiv pinned 8 p q = Ok true /\
+    respects_denotation obj H /\ respects_cidr6 obj H /\ equiv pinned 8 p q = Ok true /\
     matches0 obj otype H O p /\ ~ matches0 obj otype H O q.
 Proof.
   exists w_bin_upper, w_bin_lower, unit, regkey_type, (H_bin [65; 66; 67]%N), one_key_object.
@@ -304,7 +324,7 @@ Print Assumptions equiv_sound_pinned_refuted_binary.
 
 Theorem equiv_sound_pinned_refuted_regex :
   exists p q obj otype H O,
-    respects_denotation obj H /\ respects_cidr obj H /\ equiv pinned 8 p q = Ok true /\
+    respects_denotation obj H /\ respects_cidr6 obj H /\ equiv pinned 8 p q = Ok true /\
     matches0 obj otype H O p /\ ~ matches0 obj otype H O q.
 Proof.
   exists w_re_upper, w_re_lower, unit, regkey_type, (H_str (u "\\D")), one_key_object.
@@ -312,8 +332,18 @@ Proof.
 Qed.
 Print Assumptions equiv_sound_pinned_refuted_regex.
 
+Theorem equiv_sound_pinned_refuted_ip_regex :
+  exists p q obj otype H O,
+    respects_denotation obj H /\ respects_cidr6 obj H /\ equiv pinned 8 p q = Ok true /\
+    matches0 obj otype H O p /\ ~ matches0 obj otype H O q.
+Proof.
+  exists w_ipre_a, w_ipre_b, unit, ip4_type, (H_str (u "10.0.0.1/8")), one_key_object.
+  split; [apply H_str_respects | split; [apply H_str_cidr | split; [exact pinned_ipregex_equiv | exact ipregex_patterns_differ]]].
+Qed.
+Print Assumptions equiv_sound_pinned_refuted_ip_regex.
+
 (* the hypotheses of the soundness theorems are satisfiable by interpretations that do look at the constant *)
 Example respects_denotation_satisfiable : respects_denotation unit (H_bin [65; 66; 67]%N).
 Proof. apply H_bin_respects. Qed.
-Example respects_cidr_satisfiable : respects_cidr unit (H_bin [65; 66; 67]%N).
+Example respects_cidr6_satisfiable : respects_cidr6 unit (H_bin [65; 66; 67]%N).
 Proof. apply H_bin_cidr. Qed.
